@@ -8,6 +8,7 @@ import Stevia.Proofs.TreeState
 import Stevia.Proofs.HashSetState
 import Stevia.Proofs.ArraySetState
 import Stevia.Props.C06
+import Stevia.Proofs.ExecInv
 
 namespace Stevia.C12
 open Stevia
@@ -52,6 +53,9 @@ theorem hset_no_fault {γ : Type} [DecidableEq γ] (hash : γ → Nat) (s : HSet
   obtain ⟨s', h1, _⟩ := HSet.setStep_refines h s.members (List.Perm.refl _) op
   exact ⟨s', _, h1⟩
 
+theorem hset_no_fault_reachable {γ : Type} [DecidableEq γ] (hash : γ → Nat) (s : HSet γ) (h : HSet.Reach hash s)
+    (op : SetOp γ) : ∃ s' o, s.setStep hash op = .ok (s', o) := hset_no_fault hash s (HSet.reach_inv h) op
+
 theorem hset_edge_configs_accepted {γ : Type} [DecidableEq γ] (hash : γ → Nat) (n : Nat) (hn : n < 4294967295) :
     (HSet.init n n : HSet γ).Inv hash := HSet.inv_init hash n n (Nat.le_refl n) hn
 
@@ -69,6 +73,11 @@ theorem aset_no_fault {κ : Type} [LinOrd κ] {key : α → κ} {P : Nat} {s : A
     (op : ASOp α κ) : ∃ s' o, s.opStep key P op = .ok (s', o) := by
   obtain ⟨s', h1, _⟩ := ASet.opStep_refines h op
   exact ⟨s', _, h1⟩
+
+
+theorem aset_no_fault_reachable {κ : Type} [LinOrd κ] {key : α → κ} {P : Nat} {d : α} {s : ASet α}
+    (h : ASet.Reach key P d s) (op : ASOp α κ) : ∃ s' o, s.opStep key P op = .ok (s', o) :=
+  aset_no_fault (ASet.reach_inv h) op
 
 theorem aset_zero_is_empty {κ : Type} [LinOrd κ] (key : α → κ) (P : Nat) (d : α) (n : Nat) :
     ({ len := 0, vals := List.replicate n d } : ASet α).Inv key P ∧
